@@ -371,3 +371,201 @@ Proof.
   intros I. pose proof (sorted_in 0 _ r (mask_runs_sorted cm) I) as [_ Hl]. split; [assumption|].
   destruct (mask_runs_sound cm r (fst r + snd r - 1) I) as [H _]; [unfold in_run; lia|]. lia.
 Qed.
+
+(* ------------------------------------------------------------------------------------- *)
+(* commit / purge / schedule / try_purge                                                   *)
+(* ------------------------------------------------------------------------------------- *)
+(* the fields that none of the mask functions changes *)
+Definition same_frame (s s' : segment) : Prop :=
+  s_base s' = s_base s /\ s_kind s' = s_kind s /\ s_size s' = s_size s /\ s_info_size s' = s_info_size s /\
+  s_allow_decommit s' = s_allow_decommit s /\ s_allow_purge s' = s_allow_purge s.
+Lemma same_frame_refl s : same_frame s s.
+Proof. repeat split. Qed.
+Lemma same_frame_trans a b c : same_frame a b -> same_frame b c -> same_frame a c.
+Proof. unfold same_frame. intros (A1 & A2 & A3 & A4 & A5 & A6) (B1 & B2 & B3 & B4 & B5 & B6). repeat split; congruence. Qed.
+Lemma same_frame_ok s s' : same_frame s s' -> seg_ok s -> seg_ok s'.
+Proof. unfold same_frame, seg_ok. intros (A1 & A2 & A3 & A4 & A5 & A6). rewrite A1, A3, A4. tauto. Qed.
+Lemma same_frame_huge s s' : same_frame s s' -> is_huge s' = is_huge s.
+Proof. unfold same_frame, is_huge. intros (A1 & A2 & _). rewrite A2. reflexivity. Qed.
+
+Section WithOracle.
+Variable cfg : oscfg.
+Variable oracle : nat -> answer.
+
+(* ---- mi_segment_purge ---- *)
+Lemma segment_purge_frame o s p size : same_frame s (snd (segment_purge cfg oracle o s p size)).
+Proof.
+  unfold segment_purge. destruct (s_allow_purge s); cbn [negb]; [|apply same_frame_refl].
+  destruct (segment_commit_mask s true p size) as [[st fu] m].
+  destruct (commit_mask_is_empty m || (fu =? 0)); [apply same_frame_refl|].
+  destruct (commit_mask_any_set (s_commit s) m).
+  - destruct (os_purge cfg oracle o st fu) as [o1 d]. destruct d; cbn; repeat split.
+  - cbn. repeat split.
+Qed.
+
+Lemma segment_purge_expire o s p size : s_expire (snd (segment_purge cfg oracle o s p size)) = s_expire s.
+Proof.
+  unfold segment_purge. destruct (s_allow_purge s); cbn [negb]; [|reflexivity].
+  destruct (segment_commit_mask s true p size) as [[st fu] m].
+  destruct (commit_mask_is_empty m || (fu =? 0)); [reflexivity|].
+  destruct (commit_mask_any_set (s_commit s) m).
+  - destruct (os_purge cfg oracle o st fu) as [o1 d]. destruct d; reflexivity.
+  - reflexivity.
+Qed.
+
+(* what mi_segment_purge does to the two masks, whatever the range *)
+Lemma segment_purge_masks o s p size :
+  let m := snd (segment_commit_mask s true p size) in
+  let s' := snd (segment_purge cfg oracle o s p size) in
+  (s_purge s' = s_purge s \/ s_purge s' = N.ldiff (s_purge s) m) /\
+  (s_commit s' = s_commit s \/ (s_commit s' = N.ldiff (s_commit s) m /\ s_purge s' = N.ldiff (s_purge s) m)).
+Proof.
+  cbv zeta. unfold segment_purge. destruct (s_allow_purge s); cbn [negb]; [|cbn; auto].
+  destruct (segment_commit_mask s true p size) as [[st fu] m]. cbn [snd].
+  destruct (commit_mask_is_empty m || (fu =? 0)); [cbn; auto|].
+  destruct (commit_mask_any_set (s_commit s) m).
+  - destruct (os_purge cfg oracle o st fu) as [o1 d]. destruct d; cbn; auto.
+  - cbn. auto.
+Qed.
+
+(* C13 purge_mask_subset_commit, purge *)
+Lemma segment_purge_subset o s p size :
+  msub (s_purge s) (s_commit s) ->
+  msub (s_purge (snd (segment_purge cfg oracle o s p size))) (s_commit (snd (segment_purge cfg oracle o s p size))).
+Proof.
+  intros H. destruct (segment_purge_masks o s p size) as [[P|P] [C|[C P']]]; cbv zeta in *.
+  - rewrite P, C. exact H.
+  - rewrite C, P'. apply msub_ldiff. exact H.
+  - rewrite P, C. eapply msub_trans; [apply msub_ldiff_l|exact H].
+  - rewrite C, P'. apply msub_ldiff. exact H.
+Qed.
+
+(* C18 delay_neg_never, segments: with purge_delay < 0 a purge changes nothing in the OS *)
+Lemma segment_purge_neg o s p size : (purge_delay cfg < 0)%Z -> fst (segment_purge cfg oracle o s p size) = o.
+Proof.
+  intros H. unfold segment_purge. destruct (s_allow_purge s); cbn [negb]; [|reflexivity].
+  destruct (segment_commit_mask s true p size) as [[st fu] m].
+  destruct (commit_mask_is_empty m || (fu =? 0)); [reflexivity|].
+  destruct (commit_mask_any_set (s_commit s) m); [|reflexivity].
+  unfold os_purge. rewrite os_purge_ex_neg by assumption. reflexivity.
+Qed.
+
+(* a purge of a run of whole slices that has a committed slice *)
+Definition seg_ok2 (s : segment) : Prop := seg_ok s /\ 0 < s_base s /\ s_base s mod PAGE = 0.
+
+Lemma run_area s i c : seg_ok2 s -> 0 < c -> (i + c) * CS <= s_size s -> aligned_area (s_base s + i * CS) (c * CS).
+Proof.
+  intros ((Hsz & Hb & Hm1 & Hm2) & Hp & Hpm) Hc Hic. unfold aligned_area, CS in *.
+  rewrite COMMIT_SIZE_val, SEGSIZE_val, PAGE_val, OsProofs.P62 in *. repeat split; lia.
+Qed.
+
+Lemma wrun s i c : seg_ok s -> (i + c) * CS <= s_size s ->
+  wadd (s_base s) (wmul i CS) = s_base s + i * CS /\ wmul c CS = c * CS.
+Proof.
+  intros (Hsz & Hb & _ & _) Hic. unfold CS in *. rewrite COMMIT_SIZE_val, SEGSIZE_val, OsProofs.P62 in *.
+  rewrite (wmul_small i 65536), (wmul_small c 65536) by (rewrite W64_val; lia).
+  rewrite wadd_small by (rewrite W64_val; lia). split; reflexivity.
+Qed.
+
+Lemma segment_purge_run o s i c :
+  seg_ok2 s -> is_huge s = false -> s_allow_purge s = true -> 0 < c -> (i + c) * CS <= s_size s ->
+  (exists k, i <= k /\ k < i + c /\ N.testbit (s_commit s) k = true) ->
+  let r := segment_purge cfg oracle o s (wadd (s_base s) (wmul i CS)) (wmul c CS) in
+  calls (fst r) = calls o ++ purge_sigs cfg (s_base s + i * CS) (c * CS) true /\
+  s_purge (snd r) = N.ldiff (s_purge s) (commit_mask_create i c) /\
+  (s_commit (snd r) = s_commit s \/ s_commit (snd r) = N.ldiff (s_commit s) (commit_mask_create i c)).
+Proof.
+  intros Hok2 Hh Hap Hc Hic (k & K1 & K2 & K3). cbv zeta.
+  pose proof Hok2 as (Hok & _).
+  destruct (wrun s i c Hok Hic) as [W1 W2]. rewrite W1, W2.
+  unfold segment_purge. rewrite Hap. cbn [negb].
+  rewrite scm_aligned by assumption.
+  assert (Hbound : i + c <= MASK_BITS).
+  { destruct Hok as (Hsz & _). unfold CS in *. rewrite COMMIT_SIZE_val, SEGSIZE_val, MASK_BITS_val in *. lia. }
+  assert (Hne : commit_mask_is_empty (commit_mask_create i c) = false).
+  { apply not_true_is_false. intros E. apply is_empty_spec in E.
+    assert (B : N.testbit (commit_mask_create i c) i = true).
+    { rewrite create_bit by assumption. apply andb_true_intro. split; [apply N.leb_le|apply N.ltb_lt]; lia. }
+    rewrite E, N.bits_0 in B. discriminate. }
+  assert (Hf : (c * CS =? 0) = false) by (apply N.eqb_neq; unfold CS; rewrite COMMIT_SIZE_val; lia).
+  rewrite Hne, Hf. cbn [orb].
+  assert (Hany : commit_mask_any_set (s_commit s) (commit_mask_create i c) = true).
+  { apply any_set_spec. exists k. split; [assumption|]. rewrite create_bit by assumption.
+    apply andb_true_intro. split; [apply N.leb_le|apply N.ltb_lt]; lia. }
+  rewrite Hany.
+  destruct (os_purge cfg oracle o (s_base s + i * CS) (c * CS)) as [o1 d] eqn:P.
+  assert (C1 : calls o1 = calls o ++ purge_sigs cfg (s_base s + i * CS) (c * CS) true).
+  { replace o1 with (fst (os_purge cfg oracle o (s_base s + i * CS) (c * CS))) by (rewrite P; reflexivity).
+    unfold os_purge. apply os_purge_ex_calls. apply run_area; assumption. }
+  destruct d; cbn; auto.
+Qed.
+
+(* ---- the loop of mi_segment_try_purge ---- *)
+Definition run_step (b : N) (st : os * segment) (r : N * N) : os * segment :=
+  let '(idx, count) := r in segment_purge cfg oracle (fst st) (snd st) (wadd b (wmul idx MI_COMMIT_SIZE)) (wmul count MI_COMMIT_SIZE).
+
+Lemma purge_runs_unfold o s rs : purge_runs cfg oracle o s rs = fold_left (run_step (s_base s)) rs (o, s).
+Proof. reflexivity. Qed.
+
+Lemma fold_runs_frame b : forall rs o s, same_frame s (snd (fold_left (run_step b) rs (o, s))) /\
+  s_expire (snd (fold_left (run_step b) rs (o, s))) = s_expire s /\
+  (s_purge s = 0 -> s_purge (snd (fold_left (run_step b) rs (o, s))) = 0) /\
+  msub (s_commit (snd (fold_left (run_step b) rs (o, s)))) (s_commit s) /\
+  ((purge_delay cfg < 0)%Z -> fst (fold_left (run_step b) rs (o, s)) = o).
+Proof.
+  induction rs as [|[i c] rs IH]; intros o s; cbn [fold_left].
+  - split; [apply same_frame_refl|]. split; [reflexivity|]. split; [auto|]. split; [apply msub_refl|reflexivity].
+  - change (run_step b (o, s) (i, c)) with (segment_purge cfg oracle o s (wadd b (wmul i MI_COMMIT_SIZE)) (wmul c MI_COMMIT_SIZE)).
+    set (r := segment_purge cfg oracle o s (wadd b (wmul i MI_COMMIT_SIZE)) (wmul c MI_COMMIT_SIZE)).
+    pose proof (segment_purge_frame o s (wadd b (wmul i MI_COMMIT_SIZE)) (wmul c MI_COMMIT_SIZE)) as F.
+    pose proof (segment_purge_expire o s (wadd b (wmul i MI_COMMIT_SIZE)) (wmul c MI_COMMIT_SIZE)) as X.
+    pose proof (segment_purge_masks o s (wadd b (wmul i MI_COMMIT_SIZE)) (wmul c MI_COMMIT_SIZE)) as M.
+    pose proof (segment_purge_neg o s (wadd b (wmul i MI_COMMIT_SIZE)) (wmul c MI_COMMIT_SIZE)) as Ng.
+    fold r in F, X, M, Ng. destruct r as [o1 s1]. cbn [fst snd] in F, X, M, Ng. cbv zeta in M.
+    destruct (IH o1 s1) as (I1 & I2 & I3 & I4 & I5).
+    split; [eapply same_frame_trans; eassumption|]. split; [congruence|]. split; [|split].
+    + intros Z. apply I3. destruct M as [[P|P] _]; rewrite P, Z; [reflexivity|apply N.ldiff_0_l].
+    + eapply msub_trans; [exact I4|]. destruct M as [_ [C|[C _]]]; rewrite C; [apply msub_refl|apply msub_ldiff_l].
+    + intros Hn. rewrite I5 by assumption. apply Ng. assumption.
+Qed.
+
+(* exact list of system calls of the loop over sorted runs whose slices are all committed *)
+Lemma fold_runs_calls : forall rs lo o s,
+  seg_ok2 s -> is_huge s = false -> s_allow_purge s = true ->
+  sorted_from lo rs ->
+  (forall r, In r rs -> (fst r + snd r) * CS <= s_size s /\ forall k, in_run r k -> N.testbit (s_commit s) k = true) ->
+  calls (fst (fold_left (run_step (s_base s)) rs (o, s))) =
+    calls o ++ flat_map (fun r => purge_sigs cfg (s_base s + fst r * CS) (snd r * CS) true) rs.
+Proof.
+  induction rs as [|[i c] rs IH]; intros lo o s Hok2 Hh Hap Hsort Hrs; cbn [fold_left flat_map].
+  - rewrite app_nil_r. reflexivity.
+  - inversion Hsort as [|lo' i' c' rest' Hlo Hc Hrest]; subst.
+    destruct (Hrs (i, c) (or_introl eq_refl)) as [Hic Hbits]. cbn [fst snd] in Hic, Hbits.
+    change (run_step (s_base s) (o, s) (i, c)) with (segment_purge cfg oracle o s (wadd (s_base s) (wmul i CS)) (wmul c CS)).
+    pose proof (segment_purge_run o s i c Hok2 Hh Hap Hc Hic) as R.
+    assert (Hex : exists k, i <= k /\ k < i + c /\ N.testbit (s_commit s) k = true).
+    { exists i. split; [lia|]. split; [lia|]. apply Hbits. unfold in_run. cbn. lia. }
+    specialize (R Hex). cbv zeta in R. fold CS in R |- *.
+    pose proof (segment_purge_frame o s (wadd (s_base s) (wmul i CS)) (wmul c CS)) as F.
+    destruct (segment_purge cfg oracle o s (wadd (s_base s) (wmul i CS)) (wmul c CS)) as [o1 s1] eqn:E.
+    cbn [fst snd] in R, F. destruct R as (R1 & R2 & R3).
+    pose proof F as (F1 & F2 & F3 & F4 & F5 & F6).
+    rewrite <- F1.
+    rewrite (IH (i + c) o1 s1).
+    + rewrite R1, <- app_assoc. rewrite F1. reflexivity.
+    + destruct Hok2 as (A & B & C). split; [eapply same_frame_ok; eassumption|]. rewrite F1. split; assumption.
+    + rewrite (same_frame_huge s s1 F). assumption.
+    + congruence.
+    + assumption.
+    + intros r Hr. destruct (Hrs r (or_intror Hr)) as [H1 H2]. rewrite F3. split; [assumption|].
+      intros k Hk. specialize (H2 k Hk).
+      destruct R3 as [R3|R3]; rewrite R3; [assumption|].
+      rewrite N.ldiff_spec, H2. cbn [andb]. apply negb_true_iff.
+      assert (Hb : i + c <= MASK_BITS).
+      { destruct Hok2 as ((Hsz & _) & _). unfold CS in *. rewrite COMMIT_SIZE_val, SEGSIZE_val, MASK_BITS_val in *. lia. }
+      rewrite create_bit by assumption.
+      pose proof (sorted_in (i + c) rs r Hrest Hr) as [S1 S2]. unfold in_run in Hk.
+      apply andb_false_intro2. apply N.ltb_ge. lia.
+Qed.
+
+End WithOracle.
